@@ -425,6 +425,33 @@ impl<'a> Printer<'a> {
         }
     }
 
+    /// `let zh : Thk (A -> Ret Unit) = { fn (zx : A) => let zy : B = zx in ret () } in`
+    fn probe(&mut self, a: &VTy, b: &VTy) {
+        self.toks(&["let", "zh", ":", "Thk", "("]);
+        self.vty(a, 3);
+        self.toks(&["->", "Ret", "Unit", ")", "=", "{", "fn", "(", "zx", ":"]);
+        self.vty(a, 5);
+        self.toks(&[")", "=>", "let", "zy", ":"]);
+        self.vty(b, 5);
+        self.toks(&["=", "zx", "in", "ret", "()", "}", "in"]);
+    }
+
+    /// the probe between `orig` and the declared copy `Zs` (`Thk Zs` for codata)
+    fn probe_text(&mut self, orig: &VTy, is_data: bool, copy_first: bool) {
+        let copy: &[&str] = if is_data { &["Zs"] } else { &["Thk", "Zs"] };
+        self.toks(&["let", "zh", ":", "Thk", "("]);
+        if copy_first {
+            self.toks(if is_data { &["Zs"] } else { &["(", "Thk", "Zs", ")"] });
+        } else {
+            self.vty(orig, 3);
+        }
+        self.toks(&["->", "Ret", "Unit", ")", "=", "{", "fn", "(", "zx", ":"]);
+        if copy_first { self.toks(copy) } else { self.vty(orig, 5) }
+        self.toks(&[")", "=>", "let", "zy", ":"]);
+        if copy_first { self.vty(orig, 5) } else { self.toks(copy) }
+        self.toks(&["=", "zx", "in", "ret", "()", "}", "in"]);
+    }
+
     fn far_or_same_literal(&mut self, ch: u32) {
         self.p(["5", "\"zz\"", "()"][(ch % 3) as usize]);
     }
@@ -458,8 +485,8 @@ impl<'a> Printer<'a> {
         let ctx = self.hint;
         let former = Self::former_c(t);
         let closed = Self::closed_c(t);
-        let sub = ch / 35;
-        let mut op = ch % 35;
+        let sub = ch / 41;
+        let mut op = ch % 41;
         if matches!(t, CTy::Codata(_)) && (ch >> 20) % 2 == 0 {
             op = 22 + (ch >> 21) % 2;
         }
@@ -716,6 +743,185 @@ impl<'a> Printer<'a> {
                     self.toks(&["as", w]);
                 }
                 self.toks(&[":", "VType", ")", ".", "Yz", "*", "Thk", "(", "Yz", "->", "Ret", "Unit", ")", ")", "=", "zb", "in"]);
+                self.comp_inner(c, t);
+            }
+            | 35 | 36 => {
+                // a variable of one type used at another: `{ fn (zx : A) => let zy : B = zx in ret () }`, never called,
+                // so nothing but the comparison of A and B decides; A/B from the site's type (a value type when the
+                // site is a let/do, else Thk of the computation type)
+                let site_v: VTy = match c {
+                    | Comp::Let(_, a, _, _) | Comp::Do(_, a, _, _) if sub % 2 == 0 => a.clone(),
+                    | _ => VTy::Thk(Box::new(t.clone())),
+                };
+                let former_v = Self::former_v(&site_v);
+                let (a, b, accept) = if op == 36 {
+                    (site_v.clone(), site_v.clone(), true)
+                } else if sub / 2 % 2 == 0 {
+                    (site_v.clone(), self.near_v(&site_v, sub / 4), false)
+                } else {
+                    (self.near_v(&site_v, sub / 4), site_v.clone(), false)
+                };
+                self.applied(if accept { "variable-used-at-its-own-type" } else { "variable-used-at-a-near-miss-type" }, accept, former_v, ctx);
+                self.probe(&a, &b);
+                self.comp_inner(c, t);
+            }
+            | 37 => {
+                // the same probe against a declared copy of a data / codata type
+                let target: Option<(bool, usize)> = match (c, t) {
+                    | (_, CTy::Codata(cd)) if !self.prog.codatas[*cd].dtors.is_empty() => Some((false, *cd)),
+                    | (Comp::Let(_, VTy::Data(d), _, _) | Comp::Do(_, VTy::Data(d), _, _), _) if !self.prog.datas[*d].ctors.is_empty() => Some((true, *d)),
+                    | _ => None,
+                };
+                match target {
+                    | None => {
+                        self.applied("variable-used-at-its-own-type", true, former, ctx);
+                        let v = VTy::Thk(Box::new(t.clone()));
+                        self.probe(&v, &v);
+                        self.comp_inner(c, t);
+                    }
+                    | Some((is_data, idx)) => {
+                        let variant = sub % 5;
+                        let sealed = if is_data { self.prog.datas[idx].sealed || self.prog.datas[idx].recursive } else { self.prog.codatas[idx].sealed || self.prog.codatas[idx].recursive };
+                        let accept = variant == 0 && !sealed;
+                        self.applied(
+                            match (variant == 0, sealed) {
+                                | (true, false) => "variable-used-at-an-identical-transparent-declaration",
+                                | (true, true) => "variable-used-at-a-copy-of-a-sealed-declaration",
+                                | _ => "variable-used-at-a-near-miss-declaration",
+                            },
+                            accept,
+                            if is_data { "Data" } else { "Codata" },
+                            ctx,
+                        );
+                        if is_data {
+                            self.data_copy_decl(idx, variant + 5 * (sub / 5));
+                        } else {
+                            self.codata_copy_decl(idx, variant + 5 * (sub / 5));
+                        }
+                        let orig = if is_data { VTy::Data(idx) } else { VTy::Thk(Box::new(CTy::Codata(idx))) };
+                        // direction: found = copy, expected = original, or the reverse
+                        let copy_first = sub / 25 % 2 == 0;
+                        self.probe_text(&orig, is_data, copy_first);
+                        self.comp_inner(c, t);
+                    }
+                }
+            }
+            | 38 => {
+                // binder correspondence: nested quantifiers whose bodies differ only in *which* bound variable occurs
+                const PAIRS: &[(&str, &str, bool, &str)] = &[
+                    ("Thk ( forall ( Za : VType ) . forall ( Zb : VType ) . Za -> Zb -> Ret Za )", "Thk ( forall ( Za : VType ) . forall ( Zb : VType ) . Za -> Zb -> Ret Zb )", false, "bound-variables-confused"),
+                    ("Thk ( forall ( Za : VType ) . forall ( Zb : VType ) . Za -> Zb -> Ret Za )", "Thk ( forall ( Zc : VType ) . forall ( Zd : VType ) . Zc -> Zd -> Ret Zc )", true, "alpha-renamed-quantifiers"),
+                    ("Thk ( forall ( Za : VType ) . forall ( Zb : VType ) . Za -> Zb -> Ret Za )", "Thk ( forall ( Zb : VType ) . forall ( Za : VType ) . Za -> Zb -> Ret Za )", false, "bound-variables-confused"),
+                    ("Thk ( forall ( Za : CType ) . forall ( Zb : CType ) . Thk Za -> Thk Zb -> Za )", "Thk ( forall ( Za : CType ) . forall ( Zb : CType ) . Thk Za -> Thk Zb -> Zb )", false, "bound-variables-confused"),
+                    ("( exists ( Za : VType ) . exists ( Zb : VType ) . Za * Thk ( Zb -> Ret Unit ) )", "( exists ( Za : VType ) . exists ( Zb : VType ) . Zb * Thk ( Za -> Ret Unit ) )", false, "bound-variables-confused"),
+                    ("( exists ( Za : VType ) . exists ( Zb : VType ) . Za * Thk ( Zb -> Ret Unit ) )", "( exists ( Zc : VType ) . exists ( Zd : VType ) . Zc * Thk ( Zd -> Ret Unit ) )", true, "alpha-renamed-quantifiers"),
+                    ("Thk ( forall ( Za : VType ) . ( exists ( Zb : VType ) . Zb * Za ) -> Ret Za )", "Thk ( forall ( Za : VType ) . ( exists ( Zb : VType ) . Za * Zb ) -> Ret Za )", false, "bound-variables-confused"),
+                    ("Thk ( forall ( Za : VType ) . Za -> ( forall ( Zb : VType ) . Zb -> Ret Zb ) )", "Thk ( forall ( Za : VType ) . Za -> ( forall ( Zb : VType ) . Zb -> Ret Za ) )", false, "bound-variables-confused"),
+                    ("Thk ( forall ( Za : CType ) . forall ( Zb : CType ) . Thk Za -> Thk Zb -> Za )", "Thk ( forall ( Zx : CType ) . forall ( Zy : CType ) . Thk Zx -> Thk Zy -> Zx )", true, "alpha-renamed-quantifiers"),
+                ];
+                let (a, b, accept, name) = PAIRS[sub as usize % PAIRS.len()];
+                let (a, b) = if sub / PAIRS.len() as u32 % 2 == 0 { (a, b) } else { (b, a) };
+                self.applied(name, accept, former, ctx);
+                self.toks(&["let", "zh", ":", "Thk", "("]);
+                self.toks(&a.split(' ').collect::<Vec<_>>());
+                self.toks(&["->", "Ret", "Unit", ")", "=", "{", "fn", "(", "zx", ":"]);
+                self.toks(&a.split(' ').collect::<Vec<_>>());
+                self.toks(&[")", "=>", "let", "zy", ":"]);
+                self.toks(&b.split(' ').collect::<Vec<_>>());
+                self.toks(&["=", "zx", "in", "ret", "()", "}", "in"]);
+                self.comp_inner(c, t);
+            }
+            | 39 | 40 => {
+                // a package opened through a tuple pattern, field projections, or under a constructor, in four
+                // contexts whose type is synthesised; the payload escapes (39) or is used abstractly (40)
+                let escape = op == 39;
+                let (w, lit) = Self::witness(sub);
+                let opening = sub / 4 % 3;
+                let context = sub / 12 % 4;
+                let names = ["tuple-pattern", "projection-pattern", "under-a-constructor"];
+                let ctxs = ["do-bindee", "value-let", "thunk-let", "thunk-match"];
+                let label: &'static str = match (escape, opening, context) {
+                    | (true, 0, 0) => "package-witness-escapes[tuple-pattern,do-bindee]",
+                    | (true, 0, 1) => "package-witness-escapes[tuple-pattern,value-let]",
+                    | (true, 0, 2) => "package-witness-escapes[tuple-pattern,thunk-let]",
+                    | (true, 0, _) => "package-witness-escapes[tuple-pattern,thunk-match]",
+                    | (true, 1, 0) => "package-witness-escapes[projection-pattern,do-bindee]",
+                    | (true, 1, 1) => "package-witness-escapes[projection-pattern,value-let]",
+                    | (true, 1, _) => "package-witness-escapes[projection-pattern,thunk-let]",
+                    | (true, _, 0) => "package-witness-escapes[under-a-constructor,do-bindee]",
+                    | (true, _, 1) => "package-witness-escapes[under-a-constructor,value-let]",
+                    | (true, _, 2) => "package-witness-escapes[under-a-constructor,thunk-let]",
+                    | (true, _, _) => "package-witness-escapes[under-a-constructor,thunk-match]",
+                    | (false, 0, _) => "package-opened-and-used-abstractly[tuple-pattern]",
+                    | (false, 1, _) => "package-opened-and-used-abstractly[projection-pattern]",
+                    | (false, _, _) => "package-opened-and-used-abstractly[under-a-constructor]",
+                };
+                let _ = (names, ctxs);
+                self.applied(label, !escape, former, ctx);
+                let pk: &[&str] = &["(", "exists", "(", "Xz", ":", "VType", ")", ".", "Xz", "*", "Thk", "(", "Xz", "->", "Ret", "Unit", ")", ")"];
+                // the package value `zb` and the pattern that opens it; payload variable and consumer names
+                let (pat, payload, consumer): (Vec<&str>, &str, &str) = match opening {
+                    | 0 => {
+                        self.toks(&["let", "zb", ":"]);
+                        self.toks(pk);
+                        self.toks(&["=", "(", w, ",", lit, ",", "{", "fn", "(", "zq", ":", w, ")", "=>", "ret", "()", "}", ")", "in"]);
+                        (vec!["(", "Xz", ",", "zv", ",", "zk", ")"], "zv", "zk")
+                    }
+                    | 1 => {
+                        self.toks(&["let", "zb", ":", "(", "exists", "(", "Xz", ":", "VType", ")", ".", "(", "value", "::", "Xz", ")", "*", "(", "consume", "::", "Thk", "(", "Xz", "->", "Ret", "Unit", ")", ")", "*", "Unit", ")", "="]);
+                        self.toks(&["(", w, ",", "value", "=", lit, ",", "consume", "=", "{", "fn", "(", "zq", ":", w, ")", "=>", "ret", "()", "}", ",", "()", ")", "in"]);
+                        (vec!["(", "/", "value", ";", "/", "consume", ")"], "value", "consume")
+                    }
+                    | _ => {
+                        let saved = std::mem::take(&mut self.out);
+                        self.toks(&["let", "Zs", ":", "VType", "=", "data", "|", "+Wrap", ":"]);
+                        self.toks(pk);
+                        self.toks(&["end", "that", "\n"]);
+                        let decl = std::mem::replace(&mut self.out, saved);
+                        self.mutator.as_mut().unwrap().extra_decl = decl;
+                        self.toks(&["let", "zb", ":", "Zs", "=", "+Wrap", "(", w, ",", lit, ",", "{", "fn", "(", "zq", ":", w, ")", "=>", "ret", "()", "}", ")", "in"]);
+                        (vec!["+Wrap", "(", "Xz", ",", "zv", ",", "zk", ")"], "zv", "zk")
+                    }
+                };
+                // projection patterns are not match arms
+                let context = if opening == 1 && context == 3 { 2 } else { context };
+                match context {
+                    | 0 => {
+                        self.toks(&["do", "zr", "<-", "(", "let"]);
+                        self.toks(&pat);
+                        self.toks(&["=", "zb", "in"]);
+                        if escape {
+                            self.toks(&["ret", payload, ")", ";"]);
+                        } else {
+                            self.toks(&["do", "zu", "<-", "!", consumer, payload, ";", "ret", "()", ")", ";"]);
+                        }
+                    }
+                    | 1 => {
+                        self.toks(&["let", "zl", "=", "(", "let"]);
+                        self.toks(&pat);
+                        self.toks(&["=", "zb", "in", if escape { payload } else { "()" }, ")", "in"]);
+                    }
+                    | 2 => {
+                        self.toks(&["let", "zl", "=", "{", "let"]);
+                        self.toks(&pat);
+                        self.toks(&["=", "zb", "in"]);
+                        if escape {
+                            self.toks(&["ret", payload, "}", "in"]);
+                        } else {
+                            self.toks(&["do", "zu", "<-", "!", consumer, payload, ";", "ret", "()", "}", "in"]);
+                        }
+                    }
+                    | _ => {
+                        self.toks(&["let", "zl", "=", "{", "match", "zb", "|"]);
+                        self.toks(&pat);
+                        self.p("=>");
+                        if escape {
+                            self.toks(&["ret", payload, "end", "}", "in"]);
+                        } else {
+                            self.toks(&["do", "zu", "<-", "!", consumer, payload, ";", "ret", "()", "end", "}", "in"]);
+                        }
+                    }
+                }
                 self.comp_inner(c, t);
             }
             | 27 => {
